@@ -34,6 +34,11 @@ GenTrees == {[parent |-> p, txs |-> [b \in 1..NBlocks |-> TxOf(p, b)], ntx |-> N
 (* the shapes behind the candidate findings of NOTES.md *)
 FindingTrees == {[parent |-> <<0, 1, 2, 3, 0>>, txs |-> <<<<1>>, <<2>>, <<>>, <<>>, <<1>>>>, ntx |-> 2]}
 
+(* thorough tier: hand-picked larger shapes (the full set of 5-block trees is ~10^8 transitions) *)
+ThoroughShapes == {<<0, 1, 2, 3, 0>>, <<0, 1, 2, 1, 4>>, <<0, 0, 1, 2, 3>>, <<0, 1, 1, 2, 3>>, <<0, 1, 2, 2, 2>>,
+                   <<0, 1, 2, 3, 1, 5>>, <<0, 1, 2, 0, 4, 5>>}
+ThoroughTrees == {[parent |-> p, txs |-> [b \in 1..Len(p) |-> TxOf(p, b)], ntx |-> NTx] : p \in ThoroughShapes}
+
 MCInit == /\ \E t \in Trees, sc \in Schemes : InitWith(t, sc)
           /\ act = [op |-> "init"] /\ hist = <<>>
 
